@@ -9,7 +9,7 @@ import (
 // Entry point to typecheck programs
 func Typecheck(processes []*Process, assumedFreeNames []Name, globalEnv *GlobalEnvironment) error {
 	errorChan := make(chan error)
-	doneChan := make(chan bool)
+	doneChan := make(chan bool, 1)
 
 	globalEnv.log(LOGINFO, "Initiating typechecking")
 
@@ -30,7 +30,13 @@ func Typecheck(processes []*Process, assumedFreeNames []Name, globalEnv *GlobalE
 
 func typecheckFunctionsAndProcesses(processes []*Process, assumedFreeNames []Name, globalEnv *GlobalEnvironment, errorChan chan error, doneChan chan bool) {
 	defer func() {
-		// No error found, notify parent
+		if r := recover(); r != nil {
+			// An internal failure is reported as an error (instead of signalling success and crashing the caller)
+			errorChan <- fmt.Errorf("internal typechecker error: %v", r)
+			return
+		}
+
+		// Notify parent that typechecking finished (ignored if an error was already reported)
 		doneChan <- true
 	}()
 
@@ -39,16 +45,19 @@ func typecheckFunctionsAndProcesses(processes []*Process, assumedFreeNames []Nam
 	// Start with some preliminary check on the labelled types
 	if err := preliminaryTypesDefinitionsChecks(globalEnv); err != nil {
 		errorChan <- err
+		return
 	}
 
 	// Check that function definitions are well formed
 	if err := preliminaryFunctionDefinitionsChecks(globalEnv); err != nil {
 		errorChan <- err
+		return
 	}
 
 	// Check that processes are well formed
 	if err := preliminaryProcessesChecks(processes, assumedFreeNames, globalEnv); err != nil {
 		errorChan <- err
+		return
 	}
 
 	globalEnv.log(LOGRULEDETAILS, "Preliminary checks ok")
@@ -60,6 +69,7 @@ func typecheckFunctionsAndProcesses(processes []*Process, assumedFreeNames []Nam
 	// Typecheck function definitions
 	if err := typecheckFunctionDefinitions(globalEnv); err != nil {
 		errorChan <- err
+		return
 	}
 
 	globalEnv.log(LOGRULEDETAILS, "Function declarations typecheck ok")
@@ -67,6 +77,7 @@ func typecheckFunctionsAndProcesses(processes []*Process, assumedFreeNames []Nam
 	// Typecheck process definitions
 	if err := typecheckProcesses(processes, assumedFreeNames, globalEnv); err != nil {
 		errorChan <- err
+		return
 	}
 
 	globalEnv.log(LOGRULEDETAILS, "Process declarations typecheck ok")
